@@ -931,7 +931,11 @@ impl<'f, 'i, 't> Parser<'f, 'i, 't> {
         // I believe the error condition here is impossible.
         let year = t::Year::try_new("year", year)
             .context("year number (from century) is invalid")?;
-        self.tm.year = Some(year);
+        // A century is only a coarse year. If a year has already been
+        // parsed, it must not be replaced by the start of its century.
+        if self.tm.year.is_none() {
+            self.tm.year = Some(year);
+        }
         self.bump_fmt();
         Ok(())
     }
